@@ -220,6 +220,67 @@ pub fn run(seed: u64, thorough: bool, out_dir: &std::path::Path) -> Out {
             }
         }
     }
+    // ---- a long branch on top of an invalid block, delivered in one burst: the import
+    // pipeline (bounded channels between the insert, preload and verify threads) must
+    // reject all of it and stay alive
+    {
+        use ckb_verification_traits::Switch;
+        let burst = if thorough { 400 } else { 160 };
+        let cfg = ChainCfg::default();
+        let (consensus, _) = make_consensus(&cfg);
+        let builder = Node::temp(&consensus);
+        let mut good: Vec<ckb_types::core::BlockView> = vec![];
+        for k in 0..3u128 {
+            let b = build_block(&builder, &BlockPlan { ts_delta: 5, nonce: k, ..Default::default() });
+            builder.process(&b).expect("valid");
+            good.push(b);
+        }
+        // the invalid block and its descendants
+        let base = build_block(&builder, &BlockPlan { ts_delta: 5, nonce: 50, ..Default::default() });
+        let mut dao = base.dao().raw_data().to_vec(); dao[24] ^= 1;
+        let bad = { let h = base.header().as_advanced_builder().dao(ckb_types::packed::Byte32::from_slice(&dao).unwrap()).build(); base.as_advanced_builder().header(h).build_unchecked() };
+        let mut branch = vec![bad.clone()];
+        let _ = builder.chain().blocking_process_block_with_switch(std::sync::Arc::new(bad), Switch::DISABLE_ALL);
+        for k in 0..burst {
+            let b = build_block(&builder, &BlockPlan { ts_delta: 5, nonce: 100 + k as u128, ..Default::default() });
+            let _ = builder.chain().blocking_process_block_with_switch(std::sync::Arc::new(b.clone()), Switch::DISABLE_ALL);
+            branch.push(b);
+        }
+        // a valid competitor that must still be importable afterwards
+        builder.stop();
+        let builder2 = Node::temp(&consensus);
+        for b in &good { builder2.process(b).expect("valid"); }
+        let mut rest = vec![];
+        for k in 0..3u128 {
+            let b = build_block(&builder2, &BlockPlan { ts_delta: 7, nonce: 900 + k, ..Default::default() });
+            builder2.process(&b).expect("valid");
+            rest.push(b);
+        }
+        builder2.stop();
+        let jcase = json!({"stream": "invalid-branch-burst", "descendants_of_invalid_block": burst});
+        let r = std::panic::catch_unwind(std::panic::AssertUnwindSafe(|| {
+            let node = Node::temp(&consensus);
+            for b in &good { node.process(b).expect("valid"); }
+            let rxs: Vec<_> = branch.iter().map(|b| node.deliver(b)).collect();
+            let mut verdicts = 0;
+            for rx in rxs { if rx.recv_timeout(Duration::from_secs(30)).is_ok() { verdicts += 1; } }
+            let mut ok = true;
+            for b in &rest { ok &= matches!(node.process(b), Ok(_)); }
+            let tip = node.tip().hash();
+            node.stop();
+            (verdicts, ok, tip == rest.last().unwrap().hash())
+        }));
+        out.evaluations += 1;
+        out.distinct.insert("invalid-branch-burst".into());
+        *out.stats.entry("invalid_branch_burst_blocks".into()).or_default() += burst as u64;
+        match r {
+            Err(_) => out.viol.push(json!({"what": "panic while importing a long branch built on an invalid block", "detail": jcase})),
+            Ok((verdicts, ok, tip_ok)) => {
+                if verdicts != branch.len() { out.viol.push(json!({"what": format!("only {verdicts} of {} blocks of a branch built on an invalid block received a verdict: the import pipeline stalled", branch.len()), "detail": jcase})); }
+                if !ok || !tip_ok { out.viol.push(json!({"what": "after a long invalid branch was delivered the node no longer imports valid blocks (tip is not the head of the heaviest valid chain)", "detail": jcase})); }
+            }
+        }
+    }
     for (i, cf) in files.iter().enumerate() {
         cf.write().unwrap();
         std::fs::write(out_dir.join(format!("cases_{:02}.json", i)), serde_json::to_string(&descs[i]).unwrap()).unwrap();
